@@ -562,3 +562,35 @@ pub fn scanflags_main(args: &[String]) {
         }
     }
 }
+
+/// `lexlayout <file>`: cases come in groups `#@@ <group>.<variant> program`; all variants of a group are the same program under a
+/// meaning-preserving layout edit (indent width, tabs, CRLF, comments, blank lines, trailing spaces).  Prints `GROUP <g> SAME` or
+/// `GROUP <g> DIFF <variant> ..` comparing the parsed programs (span-free) - and the token kinds when parsing fails.
+pub fn lexlayout_main(args: &[String]) {
+    let text = std::fs::read_to_string(&args[0]).expect("readable case file");
+    let mut groups: Vec<(String, Vec<(String, String)>)> = Vec::new();
+    for (id, _kind, src) in split_cases(&text) {
+        let (g, v) = id.split_once('.').map(|(a, b)| (a.to_string(), b.to_string())).unwrap_or((id.clone(), "base".to_string()));
+        let view = match std::panic::catch_unwind(|| parse_src(&src).map(|p| strip_spans(&format!("{:?}", p.declarations)))) {
+            Ok(Ok(s)) => s,
+            Ok(Err(e)) => format!("ERR {e}"),
+            Err(_) => "PANIC".to_string(),
+        };
+        match groups.iter_mut().find(|(n, _)| *n == g) {
+            Some((_, vs)) => vs.push((v, view)),
+            None => groups.push((g, vec![(v, view)])),
+        }
+    }
+    for (g, vs) in groups {
+        let base = &vs[0].1;
+        let bad: Vec<&str> = vs.iter().filter(|(_, s)| s != base).map(|(v, _)| v.as_str()).collect();
+        if base.starts_with("ERR") || base == "PANIC" {
+            println!("GROUP {g} BASE-{}", &base[..base.len().min(80)]);
+        } else if bad.is_empty() {
+            println!("GROUP {g} SAME {}", vs.len());
+        } else {
+            let d = vs.iter().find(|(_, s)| s != base).map(|(_, s)| s.chars().take(100).collect::<String>()).unwrap_or_default();
+            println!("GROUP {g} DIFF {} | {}", bad.join(","), d.replace('\n', " "));
+        }
+    }
+}
